@@ -43,8 +43,10 @@ pub fn c39(rep: &mut Report, rng: &mut Rng, cases: u64) {
     for case in 0..cases {
         rep.eval();
         // (1) term filter has no false negatives
-        let nwords = rng.usize(0, 120);
-        let text = if rng.chance(1, 4) { rand_unicode(rng, 40) } else { rand_words(rng, nwords) };
+        // one text in eight has more distinct tokens than the filter has bits (128 / 256): a filter that only takes the
+        // "most important" terms would then forget some
+        let nwords = if rng.chance(1, 8) { rng.usize(200, 900) } else { rng.usize(0, 120) };
+        let text = if rng.chance(1, 4) && nwords <= 120 { rand_unicode(rng, 40) } else if nwords > 120 { rep.count("texts_with_many_distinct_tokens"); (0..nwords).map(|i| format!("w{}x{} ", i, rng.below(50))).collect::<String>() } else { rand_words(rng, nwords) };
         let variant = rng.pick(&[SketchVariant::Small, SketchVariant::Small, SketchVariant::Medium]);
         let entry = generate_sketch(case, &text, variant, None);
         let tokens = tokenize_for_sketch(&text);
@@ -180,6 +182,11 @@ pub fn c27a(rep: &mut Report, rng: &mut Rng, cases: u64) {
                 let idb = track.get_current(e, s).map(|c| c.id);
                 if a != b || (ida != idb && a.is_none() != b.is_none()) {
                     rep.violation("C27:at-time-beyond-latest-differs-from-current", format!("get_at_time(t={t2}) → {ida:?}, get_current → {idb:?}"), detail.clone());
+                } else if ida != idb {
+                    // same effective time, another card: the property asks for equality with get_current, so the two
+                    // queries have to break ties between equally recent cards the same way
+                    rep.count("beyond_latest_checks_with_ties");
+                    rep.violation("C27:at-time-beyond-latest-differs-from-current:tie-between-equally-recent-cards", format!("get_at_time(t={t2}) → card {ida:?}, get_current → card {idb:?} (same effective time {a:?})"), detail.clone());
                 }
             }
         }
